@@ -3,7 +3,7 @@ one abstract state per path = trace partitioning)."""
 from .core import AnalysisError, subterms, term_s
 from .lin import Lin, State
 from .paths import PathEnum
-from .rules.util import const_of, is_call, last_seg, look, norm, truth, option_is_some
+from .rules.util import canon, payload_of, const_of, is_call, last_seg, look, norm, truth, option_is_some
 from .shapes import Shapes, TOP
 
 UMAX = {"u8": 2**8 - 1, "u16": 2**16 - 1, "u32": 2**32 - 1, "u64": 2**64 - 1, "usize": 2**64 - 1, "u128": 2**128 - 1}
@@ -29,6 +29,7 @@ PANICKY = {
     "std::vec::Vec::<T, A>::insert": "at-most-len",
     "std::vec::Vec::<T, A>::truncate": None,
     "core::slice::<impl [T]>::copy_from_slice": "same-len",
+    "core::slice::<impl [T]>::copy_within": "copy-within",
     "core::slice::<impl [T]>::split_at": "at-most-len",
     "core::slice::<impl [T]>::split_at_mut": "at-most-len",
     "core::str::<impl str>::split_at": "at-most-len",
@@ -56,6 +57,14 @@ PANICKY = {
 }
 
 
+def checked_source(t):
+    """The checked_add/checked_sub call whose Some payload the term t denotes, or None."""
+    x = payload_of(t)
+    if x is not None and (is_call(x, "checked_add") or is_call(x, "checked_sub")) and len(x[2]) == 2:
+        return x
+    return None
+
+
 def ty_max(ty):
     return UMAX.get(ty)
 
@@ -73,7 +82,7 @@ class Tr:
 
     # --- atoms
     def atom(self, t, lo=None, hi=None):
-        k = norm(t)
+        k = canon(t)
         first = k not in self._atoms
         self._atoms[k] = True
         a = Lin.atom(k)
@@ -183,66 +192,64 @@ class Tr:
             return self.arith(op.replace("WithOverflow", ""), a, b, t)
         if k == "bin" and t[1] in ("Add", "Sub", "Mul", "AddUnchecked", "SubUnchecked"):
             return self.arith(t[1].replace("Unchecked", ""), t[2], t[3], t)
-        if k == "payload":
-            x = look(t[1])
-            if is_call(x, "ok_or", "ok_or_else") and x[2]:
-                ca = look(x[2][0])
-                if is_call(ca, "checked_add") or is_call(ca, "checked_sub"):
-                    a, b = self.lin(ca[2][0]), self.lin(ca[2][1])
-                    ty = "u32" if "u32" in ca[1] else "usize" if "usize" in ca[1] else "u64" if "u64" in ca[1] else None
-                    if is_call(ca, "checked_add"):
-                        e = a + b
-                        if ty:
-                            self.st.add_le(e - Lin.const(UMAX[ty]))
-                        return e
-                    e = a - b
-                    self.st.add_le(e.scale(-1))
-                    return e
-            return self.atom(t)
+        ca = checked_source(t)
+        if ca is not None:
+            # the Some payload of checked_add / checked_sub, however it was taken out (`?` on ok_or, match, if let)
+            a, b = self.lin(ca[2][0]), self.lin(ca[2][1])
+            ty = "u32" if "u32" in ca[1] else "usize" if "usize" in ca[1] else "u64" if "u64" in ca[1] else None
+            if is_call(ca, "checked_add"):
+                e = a + b
+                if ty:
+                    self.st.add_le(e - Lin.const(UMAX[ty]))
+                return e
+            e = a - b
+            self.st.add_le(e.scale(-1))
+            return e
         if is_call(t, "len") and len(t[2]) == 1:
             return self.length(t[2][0])
         if k == "un" and t[1] == "PtrMetadata":
             return self.length(t[2])
-        if k == "field" and t[1][0] == "downcast" and t[1][2] in ("Some", "Ok"):
-            src = look(t[1][1])
-            if t[3] == "0" and t[1][2] == "Some":
-                if is_call(src, "request::find") and len(src[2]) == 2:
-                    p = self.atom(t, 0, None)
-                    self.st.add_le(p + self.length(src[2][1]) - self.length(src[2][0]))
-                    self.trusted_used.add("request::find(h, n) = Some(i) implies i + n.len() <= h.len() (windows/position)")
-                    self.find_lemma(t, src, p)
+        src = payload_of(t)
+        if src is not None:
+            key = ("payload-of", src)
+            if is_call(src, "request::find") and len(src[2]) == 2:
+                p = self.atom(key, 0, None)
+                self.st.add_le(p + self.length(src[2][1]) - self.length(src[2][0]))
+                self.trusted_used.add("request::find(h, n) = Some(i) implies i + n.len() <= h.len() (windows/position)")
+                self.find_lemma(t, src, p)
+                return p
+            if is_call(src, "position"):
+                it = look(src[2][0])
+                while it[0] == "mut":
+                    it = look(it[1])
+                if is_call(it, "bytes", "iter", "chars") or is_call(it, "into_iter"):
+                    base = it[2][0]
+                    p = self.atom(key, 0, None)
+                    self.st.add_le(p + Lin.const(1) - self.length(base))
                     return p
-                if is_call(src, "position"):
-                    it = look(src[2][0])
-                    while it[0] == "mut":
-                        it = look(it[1])
-                    if is_call(it, "bytes", "iter", "chars") or is_call(it, "into_iter"):
-                        base = it[2][0]
-                        p = self.atom(t, 0, None)
-                        self.st.add_le(p + Lin.const(1) - self.length(base))
-                        return p
-                if is_call(src, "next"):
-                    it = look(src[2][0])
-                    while it[0] == "mut":
-                        it = look(it[1])
-                    if is_call(it, "into_iter"):
-                        it = look(it[2][0])
-                    if it[0] == "agg" and it[1].startswith("std::ops::Range") and len(it[3]) == 2 and "Inclusive" not in it[1]:
-                        i = self.atom(t, None, None)
-                        self.st.add_le(self.lin(it[3][0]) - i)
-                        self.st.add_le(i + Lin.const(1) - self.lin(it[3][1]))
-                        return i
-            if t[3] == "0" and t[1][2] == "Ok":
-                if src[0] == "call" and src[1] in ("std::io::Write::write", "std::io::Read::read") and len(src[2]) == 2:
-                    n = self.atom(t, 0, None)
-                    self.st.add_le(n - self.length(src[2][1]))
-                    self.trusted_used.add("%s returns n <= buf.len()" % src[1])
-                    return n
-                if src[0] == "call" and src[1] == "vmm_sys_util::epoll::Epoll::wait" and len(src[2]) == 3:
-                    n = self.atom(t, 0, None)
-                    self.st.add_le(n - self.length(src[2][2]))
-                    self.trusted_used.add("Epoll::wait returns at most events.len() events")
-                    return n
+            if is_call(src, "next"):
+                it = look(src[2][0])
+                while it[0] == "mut":
+                    it = look(it[1])
+                if is_call(it, "into_iter"):
+                    it = look(it[2][0])
+                if it[0] == "agg" and it[1].startswith("std::ops::Range") and len(it[3]) == 2 and "Inclusive" not in it[1]:
+                    i = self.atom(key, None, None)
+                    self.st.add_le(self.lin(it[3][0]) - i)
+                    self.st.add_le(i + Lin.const(1) - self.lin(it[3][1]))
+                    return i
+            if src[0] == "call" and src[1] in ("std::io::Write::write", "std::io::Read::read") and len(src[2]) == 2:
+                n = self.atom(key, 0, None)
+                self.st.add_le(n - self.length(src[2][1]))
+                self.trusted_used.add("%s returns n <= buf.len()" % src[1])
+                return n
+            if src[0] == "call" and src[1] == "vmm_sys_util::epoll::Epoll::wait" and len(src[2]) == 3:
+                n = self.atom(key, 0, None)
+                self.st.add_le(n - self.length(src[2][2]))
+                self.trusted_used.add("Epoll::wait returns at most events.len() events")
+                return n
+            if k == "payload":
+                return self.atom(key)
         # enumerate index: ((next(enumerate(iter(v))) as Some).0).0
         if k == "field" and t[3] == "0":
             b = look(t[1])
@@ -287,10 +294,9 @@ class Tr:
         r = look(hay[2][1])
         if not (r[0] == "agg" and r[1].startswith("std::ops::RangeFrom")):
             return
-        q = look(r[3][0])
-        if not (q[0] == "field" and q[1][0] == "downcast" and q[1][2] == "Some" and is_call(look(q[1][1]), "request::find")):
+        f1 = payload_of(r[3][0])
+        if not (f1 is not None and is_call(f1, "request::find")):
             return
-        f1 = look(q[1][1])
         if norm(look(f1[2][0])) != norm(look(hay[2][0])):
             return
         qn = look(f1[2][1])
@@ -340,6 +346,27 @@ class Tr:
                 self.st.add_le(Lin.const(len(p[1].encode())) - self.length(x[2][0]))
             return
         if x[0] == "discr":
+            # the outcome of checked_add / checked_sub says how the operands compare
+            y = look(x[1])
+            some = None
+            if is_call(y, "branch") and y[2]:
+                y = look(y[2][0])
+                if is_call(y, "ok_or", "ok_or_else") and y[2]:
+                    y = look(y[2][0])
+                    some = True if c == ("eq", 0) else (False if c in (("eq", 1), ("ne", (0,))) else None)
+            else:
+                some = option_is_some(c)
+            if some is not None and (is_call(y, "checked_sub") or is_call(y, "checked_add")) and len(y[2]) == 2:
+                a, b = self.lin(y[2][0]), self.lin(y[2][1])
+                ty = "u32" if "u32" in y[1] else "usize" if "usize" in y[1] else "u64" if "u64" in y[1] else None
+                if is_call(y, "checked_sub"):
+                    if some:
+                        self.st.add_le(b - a)
+                    else:
+                        self.st.add_le(a - b + Lin.const(1))
+                elif ty:
+                    if some:
+                        self.st.add_le(a + b - Lin.const(UMAX[ty]))
             return
         # switch on an integer-valued term
         if c[0] == "eq" and x[0] in ("field", "payload", "cast", "arg", "argv", "var", "deref") and not isinstance(c[1], bool):
@@ -351,8 +378,8 @@ class Tr:
                 self.st.add_ne(e - Lin.const(v))
 
     def is_intlike(self, x):
-        if x[0] == "field" and x[1][0] == "downcast" and x[1][2] in ("Some", "Ok"):
-            src = look(x[1][1])
+        src = payload_of(x)
+        if src is not None and x[0] != "payload":
             return is_call(src, "request::find", "position", "next") or (src[0] == "call" and src[1] in ("std::io::Write::write",))
         if x[0] == "payload":
             return True
@@ -410,6 +437,7 @@ class PanicAnalysis:
         return leaves
 
     def record(self, fn, kind, key, desc, loc, bb, ok, why):
+        fn = getattr(bb, "fn", None) or fn   # a site inside an inlined helper belongs to the helper
         k = "%s|%s|%s" % (fn.name, kind, key)
         s = self.sites.get(k)
         if s is None:
@@ -535,6 +563,27 @@ class PanicAnalysis:
                     ok = st.entails_le(a - L)
             self.record(fn, "call", "drain|%s" % desc[:110], desc, loc, e[1], ok, "" if ok else "range end <= len not entailed")
             return
+        if kind == "copy-within":
+            base, rng, dest = args[0], look(args[1]), args[2]
+            L = tr.length(base)
+            d = tr.lin(dest)
+            desc = "%s.copy_within(%s, %s)" % (summarize(base, 30), summarize(rng, 60), summarize(dest, 20))
+            ok = False
+            if rng[0] == "agg" and rng[1].startswith("std::ops::Range"):
+                rk = rng[1].split("<")[0].rsplit("::", 1)[-1]
+                a = b = None
+                if rk == "Range":
+                    a, b = tr.lin(rng[3][0]), tr.lin(rng[3][1])
+                elif rk == "RangeTo":
+                    a, b = Lin.const(0), tr.lin(rng[3][0])
+                elif rk == "RangeFrom":
+                    a, b = tr.lin(rng[3][0]), L
+                elif rk == "RangeFull":
+                    a, b = Lin.const(0), L
+                if a is not None:
+                    ok = st.entails_le(a - b) and st.entails_le(b - L) and st.entails_le(a.scale(-1)) and st.entails_le(d + b - a - L) and st.entails_le(d.scale(-1))
+            self.record(fn, "call", "copy_within|%s" % desc[:110], desc, loc, e[1], ok, "" if ok else "source range within the slice and dest + count <= len not entailed")
+            return
         if kind == "nonzero-arg":
             n = tr.lin(args[1])
             ok = st.entails_le(Lin.const(1) - n)
@@ -586,8 +635,8 @@ class PanicAnalysis:
                         return True, "L-str-prefix"
             return False, "s[len(P)..] without a dominating s.starts_with(P)"
         # L-str-byte: n from s.bytes().position(|b| b == ascii)
-        if n[0] == "field" and n[1][0] == "downcast" and n[1][2] == "Some" and is_call(look(n[1][1]), "position"):
-            pos = look(n[1][1])
+        if payload_of(n) is not None and is_call(payload_of(n), "position"):
+            pos = payload_of(n)
             it = look(pos[2][0])
             while it[0] == "mut":
                 it = look(it[1])
